@@ -105,6 +105,9 @@ func (s *MState) Check(tx *pb.Transaction, ledgerHeight int64) error {
 		if u.Frozen > ledgerHeight || u.Frozen == -1 {
 			return fmt.Errorf("input %s frozen until %d (ledger height %d)", k, u.Frozen, ledgerHeight)
 		}
+		if ti.FrozenHeight != u.Frozen {
+			return fmt.Errorf("input %s cites frozen height %d, output has %d", k, ti.FrozenHeight, u.Frozen)
+		}
 		in.Add(in, u.Amount)
 	}
 	out := big.NewInt(0)
